@@ -195,6 +195,8 @@ def build(env, kind, guards, start_upper_outer=False, capture=None, pre=None):
             leg, corer, segments, conns = eq.describeDoubleNull()
         allr = leg.copy()
         allr.update(eq.coreRegionToRegion(corer))
+        if capture is not None:
+            capture["regions"] = allr
         eq.regions = eq.createRegionObjects(allr, segments)
         for c in conns:
             eq.makeConnection(*c)
